@@ -601,6 +601,7 @@ type fieldBlock struct {
 func ruleW3W4W5(c *Ctx, t *wireTables) {
 	c.rule("W3", "vtproto marshal: in each MarshalToSizedBufferVT every top-level block mentions exactly one field and ends by writing that field's tag bytes (varint of number<<3|wire); blocks appear in descending field-number order", 160)
 	c.rule("W4", "size = what is written: in each SizeVT every block mentions exactly one field, its constant tag length equals the number of tag bytes the marshal block writes, and its presence predicate is the marshal block's", 160)
+	c.rule("W4b", "length/prefix pairing: in every sum of a SizeVT block each length addend (len(x), l, mapEntrySize) occurs exactly as often as the varint size of that same length (sov(uint64(len(x))) ...), in particular for both key and value of a map entry", 100)
 	c.rule("W5", "presence: message-typed fields use nil-presence, strings/bytes/repeated/map fields length-presence, numeric and enum fields zero-suppression, bools their value — so that unset vs zero survives for the optional wrappers", 160)
 	for _, name := range t.sortedMsgs() {
 		gn := goMsgName(name)
@@ -687,6 +688,7 @@ func ruleW3W4W5(c *Ctx, t *wireTables) {
 			mblocks = append(mblocks, fb)
 		}
 		// SizeVT blocks
+		wb := 0
 		srecv := recvName(sf)
 		sblocks := map[string]fieldBlock{}
 		lfield := ""
@@ -746,6 +748,64 @@ func ruleW3W4W5(c *Ctx, t *wireTables) {
 							v, _ := strconv.Atoi(bl.Value)
 							fb.tagLen = v
 						}
+					}
+					return true
+				})
+				// W4b: in every sum, a length addend and its varint-size term refer to the same thing
+				ast.Inspect(y.Body, func(n ast.Node) bool {
+					var rhs ast.Expr
+					switch as := n.(type) {
+					case *ast.AssignStmt:
+						if len(as.Rhs) == 1 {
+							rhs = as.Rhs[0]
+						}
+					}
+					if rhs == nil {
+						return true
+					}
+					var adds []ast.Expr
+					var flat func(e ast.Expr)
+					flat = func(e ast.Expr) {
+						if be, ok := e.(*ast.BinaryExpr); ok && be.Op == token.ADD {
+							flat(be.X)
+							flat(be.Y)
+							return
+						}
+						adds = append(adds, e)
+					}
+					flat(rhs)
+					if len(adds) < 2 {
+						return true
+					}
+					lens := map[string]int{}
+					sovs := map[string]int{}
+					for _, a := range adds {
+						s := types.ExprString(a)
+						if strings.HasPrefix(s, "len(") || s == "l" || s == "mapEntrySize" {
+							lens[s]++
+						}
+						if strings.HasPrefix(s, "sov(uint64(") && strings.HasSuffix(s, "))") {
+							inner := strings.TrimSuffix(strings.TrimPrefix(s, "sov(uint64("), "))")
+							if strings.HasPrefix(inner, "len(") || inner == "l" || inner == "mapEntrySize" {
+								sovs[inner]++
+							}
+						}
+					}
+					bad := ""
+					for k, n := range lens {
+						if sovs[k] != n {
+							bad = fmt.Sprintf("the sum adds %s but its length prefix is sized %d time(s)", k, sovs[k])
+						}
+					}
+					for k, n := range sovs {
+						if lens[k] != n {
+							bad = fmt.Sprintf("the sum sizes a length prefix for %s but adds that length %d time(s)", k, lens[k])
+						}
+					}
+					if len(lens)+len(sovs) > 0 {
+						wb++
+						c.ok("W4b", fmt.Sprintf("%s.%s/sum#%d", name, fld, wb), n.Pos(), bad == "", fmt.Sprintf("SizeVT of %s.%s pairs every length with the varint size of that same length", name, fld),
+							bad+": SizeVT disagrees with what MarshalToSizedBufferVT writes whenever the two lengths need prefixes of different width, so marshalling panics or produces a truncated buffer")
 					}
 					return true
 				})
